@@ -142,6 +142,12 @@ inductive Clo where
   | mk (h : Option Name) (q : Q) (env : Clo)
   deriving Inhabited
 
+/-- `k`, unless `r` ran out of fuel (running out of fuel is absorbing) -/
+def guardND (r k : Res) : Res :=
+  match r.stop with
+  | .diverge => ⟨[], .diverge⟩
+  | _ => k
+
 /-- the loop of `reduce`: the state is threaded through the outputs of the source; the LAST
     output of the update becomes the state and an empty update keeps it; the first error ends
     everything; at the end the state is the one output -/
@@ -166,9 +172,7 @@ def foreachL (upd : V → V → Res) (ext : V → V → Res) (final : Stop) : Li
   | [], _ => ⟨[], final⟩
   | w :: ws, s =>
     let ru := upd w s
-    match ru.stop with
-    | .diverge => ⟨[], .diverge⟩
-    | _ => (Res.bindL (ext w) ru.outs ru.stop).seq (foreachL upd ext final ws (ru.outs.getLast?.getD s))
+    guardND ru ((Res.bindL (ext w) ru.outs ru.stop).seq (foreachL upd ext final ws (ru.outs.getLast?.getD s)))
 
 def lookup {α : Type} (x : Nat) : List (Nat × α) → Option α
   | [] => none
@@ -261,20 +265,18 @@ def eval [IterMsg] (defs : Name → Q) : Nat → Ctx → Env → Q → V → Res
     match ri.stop with
     | .diverge => ⟨[], .diverge⟩
     | _ => Res.bindL (fun s0 =>
-        let rs := eval defs n g ρ src v
-        match rs.stop with
-        | .diverge => ⟨[], .diverge⟩
-        | _ => reduceL (fun w s => eval defs n g ⟨ρ.clo, (x, w) :: ρ.vars⟩ upd s) rs.stop rs.outs s0) ri.outs ri.stop
+        guardND (eval defs n g ρ src v)
+          (reduceL (fun w s => eval defs n g ⟨ρ.clo, (x, w) :: ρ.vars⟩ upd s)
+            (eval defs n g ρ src v).stop (eval defs n g ρ src v).outs s0)) ri.outs ri.stop
   | n+1, g, ρ, .foreach x src init upd ext, v =>
     let ri := eval defs n g ρ init v
     match ri.stop with
     | .diverge => ⟨[], .diverge⟩
     | _ => Res.bindL (fun s0 =>
-        let rs := eval defs n g ρ src v
-        match rs.stop with
-        | .diverge => ⟨[], .diverge⟩
-        | _ => foreachL (fun w s => eval defs n g ⟨ρ.clo, (x, w) :: ρ.vars⟩ upd s)
-                 (fun w u => eval defs n g ⟨ρ.clo, (x, w) :: ρ.vars⟩ ext u) rs.stop rs.outs s0) ri.outs ri.stop
+        guardND (eval defs n g ρ src v)
+          (foreachL (fun w s => eval defs n g ⟨ρ.clo, (x, w) :: ρ.vars⟩ upd s)
+            (fun w u => eval defs n g ⟨ρ.clo, (x, w) :: ρ.vars⟩ ext u)
+            (eval defs n g ρ src v).stop (eval defs n g ρ src v).outs s0)) ri.outs ri.stop
 
 /-! ## bytecode (code.go) -/
 
